@@ -22,7 +22,7 @@ ASSUMPTIONS = ['vmon/ref/codec.py strict and lenient decoders (self-tested at se
                'a non-library exception counts as a rejection here (C07 reports it)']
 SHARD_TIMEOUT = {'quick': 900, 'thorough': 5400}
 ENCODINGS = ('latin_1', 'cp500', 'cp864', 'ascii')
-FAMILIES = ('identity', 'prefix_digit_replacements', 'prefix_rewrites', 'logical_bitmap_flips', 'zero_length_fields',
+FAMILIES = ('identity', 'valid_variants', 'prefix_digit_replacements', 'prefix_rewrites', 'logical_bitmap_flips', 'zero_length_fields',
             'edge_trims', 'multipoint')
 
 
@@ -39,7 +39,11 @@ def base(ctx, k):
     enc = ENCODINGS[k % 4]
     hexbm = (k // 4) % 2 == 1
     rng = ctx.rng_global('c08base', k)
-    if k % 3 == 2:
+    if k % 11 == 10:
+        cid = ['special', 0]
+        cfg = msgwork.cfg_of(cid)
+        msg = gen.gen_message(rng, cfg, enc, pds_mode=rng.choice(['raw', 'keys', 'none']))
+    elif k % 3 == 2:
         cid = ['gen', ctx.seed * 7919 + 9000 + (k // 3) % 7]
         cfg = msgwork.cfg_of(cid)
         msg = gen.gen_message(rng, cfg, enc, pds_mode=rng.choice(['raw', 'keys', 'none']))
@@ -58,6 +62,19 @@ def base(ctx, k):
 def family_iter(ctx, fam, data, L, enc, hexbm, k):
     if fam == 'identity':
         return [('identity', data)]
+    if fam == 'valid_variants':
+        # fresh well-formed messages under the same configuration / codec / bitmap: all must be accepted
+        cid = base(ctx, k)[0]
+        cfg = msgwork.cfg_of(cid)
+        r = ctx.rng_global('valid', k)
+        out = []
+        for j in range(25 if ctx.tier == 'quick' else 40):
+            m = gen.gen_message(r, cfg, enc)
+            try:
+                out.append(('valid_variant:%d' % j, ref.encode(m, cfg, enc, hexbm)))
+            except ref.RefError:
+                pass
+        return out
     if fam == 'prefix_digit_replacements':
         return mutate.prefix_digit_replacements(data, L, enc)
     if fam == 'prefix_rewrites':
